@@ -27,7 +27,7 @@ func c16Tree() *Template {
 	vfsWriteFile("templates/shuf.tw", "{{ vs.shuffle().len() }}{{ vs.shuffle().contains(\"z\") }}")
 	// fails in the second pass of either loop for some divisors, after the first pass has produced text
 	vfsWriteFile("templates/rows.tw", "@each(v in vs)[{{ v }}{{ d == loop.index ? nope : \"p\" }}]@end@for(i = 0; i < 3; i++)({{ d == i + 10 ? nope : \"q\" }})@end")
-	vfsWriteFile("plain.txt", "file {{ d > 0 ? 'p' : 'n' }}")
+	vfsWriteFile("plain.txt", "file {{ 8 / d > 0 ? 'p' : 'n' }}") // fails for d == 0, like the string evaluation
 	vfsWriteFile("templates/prof.tw", "<{{ u.name }}>")
 	vfsWriteFile("templates/setter.tw", "{{ h = \"H\" }}[{{ h }}]")
 	vfsWriteFile("templates/reader.tw", "({{ h }})")
@@ -51,7 +51,7 @@ func c16Op(tpl *Template, op, name int, d int64, s string) c16Result {
 		if d%2 == 0 {
 			data["u"] = c16LocalUser2(s) // a second local type that prints the same name as the one of case 3
 		}
-	case 5, 6:
+	case 5:
 		data = nil // renders without data
 	}
 	cwd := vfsCwd()
@@ -220,6 +220,11 @@ func HarnessC16Dump() {
 }
 
 
+type c16Box struct {
+	Name  string
+	Extra any
+}
+
 var c16SharedUser = &struct{ Name string }{"shared"}
 
 // HarnessC16Pointer: the same Go pointer handed to several calls converts the same way every time, also after a call
@@ -228,7 +233,21 @@ func HarnessC16Pointer() {
 	c16ErrorPage, c16Debug = "err", false
 	tpl := c16Tree()
 	good := map[string]any{"u": c16SharedUser}
-	switch vChoice("history", 5) {
+	switch vChoice("history", 6) {
+	case 5:
+		// the value behind a pointer holds something a template cannot show; the caller repairs it (or not) and repeats the call
+		// with the same pointer
+		box := &c16Box{Name: "boxed", Extra: make(chan int)}
+		_, ferr := tpl.String("prof", map[string]any{"u": box})
+		vAssert(ferr != nil, "faulty-template-fails")
+		if vChoice("repaired", 2) == 1 {
+			box.Extra = nil
+			o, err := tpl.String("prof", map[string]any{"u": box})
+			vAssert(err == nil && o == "<boxed>", "page-shows-the-data-of-this-call")
+		} else {
+			_, ferr2 := tpl.String("prof", map[string]any{"u": box})
+			vAssert(ferr2 != nil && ferr2.String() == ferr.String(), "result-does-not-depend-on-earlier-calls")
+		}
 	case 1:
 		_, ferr := tpl.String("prof", map[string]any{"u": c16SharedUser, "zchan": make(chan int)})
 		vAssert(ferr != nil, "faulty-template-fails")
